@@ -35,6 +35,7 @@ type toolCase struct {
 	Exit    int        `json:"exit"`
 	Wrote   [][]string `json:"wrote"`
 	Reports [][]any    `json:"reports"` // compare in text mode: (rule id, unchanged) per rule file in walk order
+	GhError bool       `json:"gherror"` // compare --all -o github closes with the ::error:: line
 }
 
 var toolFiles = []string{"932100-chain1", "932100", "932110"}
@@ -410,7 +411,7 @@ func toolReplay(c *Ctx, env *toolEnv, name string, tc *toolCase, cli *int64) {
 		}
 	}
 	// compare in text mode: the verdicts printed, in order (Toolchain!Reports)
-	if name, _ := tc.Cmd[0].(string); (name == "compare-all" || name == "compare") && tc.Cmd[len(tc.Cmd)-1] == false {
+	if name, _ := tc.Cmd[0].(string); name == "compare-all" || name == "compare" {
 		var got []string
 		for _, m := range reCompareVerdict.FindAllStringSubmatch(r.Stdout, -1) {
 			got = append(got, m[1]+" "+m[2])
@@ -425,6 +426,9 @@ func toolReplay(c *Ctx, env *toolEnv, name string, tc *toolCase, cli *int64) {
 		}
 		if strings.Join(got, "; ") != strings.Join(want, "; ") {
 			bad(fmt.Sprintf("compare reports [%s], the model says [%s]", strings.Join(got, "; "), strings.Join(want, "; ")), nil)
+		}
+		if strings.Contains(r.Stdout, "::error::All rules need to be up to date") != tc.GhError {
+			bad(fmt.Sprintf("the closing ::error:: line of compare --all -o github: printed=%v, the model says %v", !tc.GhError, tc.GhError), nil)
 		}
 	}
 	// the changed paths must be exactly the components the model says were written
